@@ -248,23 +248,40 @@ def c01(tier, seed):
                 cuts.append([])
                 if tier == "quick":
                     cuts = pick(rng, cuts, 4)
-                for cut in cuts:
+                # between the pieces the peer may do something else on the connection (a datagram, a
+                # complete other stream): the half-received preamble must survive it
+                plan = [(cut, inj) for cut in cuts for inj in (None, "dgram", "uni")]
+                if tier == "quick":
+                    plan = [(cut, [None, "dgram", "uni"][(k + len(pre)) % 3]) for k, cut in enumerate(cuts)]
+                for cut, inj in plan:
                     steps = [step("peer", "open_" + kind, tag="p")]
                     prev = 0
+                    nx = 0
                     for c in cut + [len(wire)]:
                         steps.append(step("peer", "write", tag="p", bytes=wire[prev:c]))
                         steps.append(sleep(25))
+                        if c < len(wire) and inj == "dgram":
+                            steps += [step("peer", "dgram", bytes=varint(sid // 4) + [0xD0, c]), sleep(15)]
+                        if c < len(wire) and inj == "uni":
+                            nx += 1
+                            steps += [step("peer", "open_uni", tag="x%d" % nx),
+                                      step("peer", "write", tag="x%d" % nx, bytes=varint(0x54) + varint(sid) + [0xE0, c, nx]),
+                                      step("peer", "fin", tag="x%d" % nx), sleep(15)]
                         prev = c
                     steps += [step("peer", "fin", tag="p"),
-                              step("app", "accept_" + kind, tag="a", ms=5000),
-                              step("app", "read", tag="a", buf=3, ms=5000)]
+                              step("app", "accept_" + kind, tag="a", ms=5000)]
+                    for k in range(nx):
+                        steps.append(step("app", "accept_uni", tag="ax%d" % k, ms=5000))
+                    steps.append(step("app", "read", tag="a", buf=3, ms=5000))
+                    for k in range(nx):
+                        steps.append(step("app", "read", tag="ax%d" % k, buf=3, ms=5000))
                     if kind == "bi":
                         steps += [step("app", "write", tag="a", len=10, salt=5, then_finish=True)]
                     # and the other way round: the endpoint opens, the raw peer records
                     steps += [step("app", "open_" + kind, tag="o"),
                               step("app", "write", tag="o", len=33, salt=9, chunk=5, then_finish=True)]
                     steps.append(sleep(60))
-                    add(role, "raw", steps, {"family": "raw-cut", "kind": kind, "cut": cut, "pre": pre, "sid": sid},
+                    add(role, "raw", steps, {"family": "raw-cut", "kind": kind, "cut": cut, "pre": pre, "sid": sid, "inject": inj or "none"},
                         {"burn_bidi": burn} if burn else None)
     return out
 
@@ -333,8 +350,14 @@ def c02(tier, seed):
     for d in decisions:
         for role in ("client", "server"):
             combos.append((urls[0][0], urls[0][1], header_sets[-1], d, header_sets[-2]))
+    # field values outside ASCII (UTF-8 text must arrive as the same text, in both directions)
+    utf = [[("x-utf8", "h\u00e9llo"), ("x-cjk", "\u4e16\u754c"), ("x-emoji", "\U0001F600 ok")],
+           [("origin", "https://\u00fc.example"), ("x-mixed", "a\u00e9\u4e16\U0001F600z")]]
+    front = [(urls[1][0], urls[1][1], utf[0], "accept", utf[1]), (urls[2][0], urls[2][1], utf[1], "accept_headers", utf[0]),
+             (urls[3][0], urls[3][1], utf[0], "forbidden", utf[1]), (urls[4][0], urls[4][1], utf[1], "accept", [])]
+    combos = front + combos
     if tier == "quick":
-        combos = combos[:10] + pick(rng, combos[10:], 50)
+        combos = combos[:12] + pick(rng, combos[12:], 50)
     out = []
     for n, (url, cfg, hdrs, decision, extra) in enumerate(combos):
         role = "client" if n % 2 == 0 else "server"
@@ -1111,6 +1134,42 @@ def c07(tier, seed):
     if tier == "quick":
         must = [p for p in plans if p[3] in (1, 3, 4) and p[2] in ("partial1", "pre_silent") and p[4] == "stalled_first" and p[0] == "server"]
         plans = must + pick(rng, [p for p in plans if p not in must], 14)
+    # one stream filled to its flow-control window and never read
+    for role in ("server", "client"):
+        for kind in ("uni", "bi"):
+            plans.append((role, kind, "window_full", 1, "stalled_first"))
+    # stalled preambles that complete later: in the end everything the peer opened is delivered
+    late = [(role, kind, "late_complete", k, "stalled_first") for role in ("server", "client")
+            for kind in ("uni", "bi") for k in (1, 4, 5)]
+    if tier == "quick":
+        late = [p for p in late if (p[1] == "uni" and p[3] == 4) or (p[1] == "bi" and p[3] == 1)]
+    for (role, kind, pos, k, order) in late:
+        pre = wt_uni_preamble(live) if kind == "uni" else wt_bi_preamble(live)
+        steps, healthy, accepts = [], [], []
+        for i in range(k):
+            steps += [step("peer", "open_" + kind, tag="s%d" % i), step("peer", "write", tag="s%d" % i, bytes=pre[:1]), sleep(15)]
+            healthy.append("s%d" % i)
+        steps.append(sleep(60))
+        # a complete stream of the same kind behind them, then unrelated connection events
+        steps += [step("peer", "open_" + kind, tag="h1"), step("peer", "write", tag="h1", bytes=pre + [1, 2, 3]),
+                  step("peer", "fin", tag="h1"), sleep(40)]
+        healthy.append("h1")
+        for j in range(3):
+            steps += [step("peer", "dgram", bytes=varint(live // 4) + [7, j]), sleep(15)]
+        steps += [step("app", "recv_dgram", ms=2500), sleep(40)]
+        for i in range(k):
+            steps += [step("peer", "write", tag="s%d" % i, bytes=pre[1:] + [1, 2, 3]), step("peer", "fin", tag="s%d" % i)]
+        for i in range(k + 1):
+            steps.append(step("app", "accept_" + kind, tag="a%d" % i, ms=5000))
+            accepts.append("a%d" % i)
+        for i in range(k + 1):
+            steps.append(step("app", "read", tag="a%d" % i, ms=3000))
+        steps += [step("app", "close", code=v62(4711), reason=[111, 107]), sleep(150)]
+        out.append({"scn": "C07-%04d" % n, "role": role, "peer": "raw", "settle_ms": 80,
+                    "meta": {"prop": "C07", "kind": kind, "pos": pos, "k": k, "order": order,
+                             "healthy": healthy, "accepts": accepts},
+                    "steps": steps})
+        n += 1
     for (role, kind, pos, k, order) in plans:
         steps = []
         healthy, accepts = [], []
@@ -1149,6 +1208,10 @@ def c07(tier, seed):
                 steps.append(step("peer", "write", tag=tag, bytes=pre))
                 steps.append(step("peer", "write", tag=tag, len=200000, salt=i, ms=300))
                 steps.append(step("app", "accept_" + kind, tag="x" + tag, ms=5000))
+            elif pos == "window_full":
+                steps.append(step("peer", "write", tag=tag, bytes=pre))
+                steps.append(step("app", "accept_" + kind, tag="x" + tag, ms=5000))
+                steps.append(step("peer", "write", tag=tag, len=1400000, salt=i, ms=1500))   # blocks at the window
             steps.append(sleep(15))
         steps.append(sleep(60))
         steps += healthy_pair()
